@@ -20,6 +20,9 @@ DESCRIPTIONS_HOSTILE = [
     'say "hi"', "it's", 'ends with quote"', 'triple """ inside', "back\\slash", "ends with backslash\\",
     "new\nline", "tab\there", "ünï cödé 日本", "", " leading space", "trailing space ", "\\n literal",
     "  indented first line\n  second line", "ends with newline\n", "\n\nblank lines around\n\n", "tab\tinside and    spaces",
+    "one line of far more than seventy-six characters, with blanks in it and  double  blanks too, which no formatter may fold: " + "word " * 30,
+    ("paragraph one is long enough to be wrapped by anything that wraps at eighty columns or so, really.\n\n"
+     "    indented paragraph two, also quite long, so that a re-flow would join or split it somewhere else."),
     "lone \ud800 surrogate", "\udfff", "pair reversed \udc00\ud800 x",
     "astral \U0001F600 and back\\slash", "astral \U00010348 ends with quote\"", "\U0001F600", "bmp edge \uffff\ufffe \"\"\" x",
     "percent %s {brace}", "'''", "\"", "\\", "a\\\"b", "carriage\rreturn", "\x0bvertical", "nul\x00byte",
